@@ -581,6 +581,15 @@ Proof.
   - exact Eo.
 Qed.
 
+Lemma f_div_x_sound : elem_sound f_div_x z_div.
+Proof.
+  intros s x y vx vy e r Hx Hy F Z0. apply (f_div_sound s x y vx vy e r Hx Hy); auto.
+  unfold f_div_x in F. unfold f_div.
+  destruct x; destruct y; try exact F.
+  destruct ((z0 =? 0) || div_ovf z z0) eqn:E; [discriminate|]. apply orb_false_iff in E as [E1 E2].
+  rewrite E1. destruct (Z.rem z z0 =? 0); [exact F|discriminate].
+Qed.
+
 (* Equal, for the code WITH the F5 fix of SymExpr::range *)
 Lemma f_equal_sound : elem_sound (f_equal range) z_eq.
 Proof.
